@@ -308,8 +308,11 @@ static void sys_check_state(void *p, const struct seqx_hist *h)
 
 			if (k < 2)
 				memcpy(ski, RECS[k == 0 ? 0 : NRECS - 1].ski, SKI_SIZE);
-			else
-				memset(ski, 0xee, SKI_SIZE); /* a SKI nobody uses */
+			else {
+				/* a SKI nobody uses: the first one with its FIRST octet changed */
+				memcpy(ski, RECS[0].ski, SKI_SIZE);
+				ski[0] ^= 0xff;
+			}
 			int rc = spki_table_get_all(&s->real, asns[a], ski, &res, &n);
 
 			V_COUNT("lookups", 1);
@@ -418,9 +421,8 @@ static void build_alphabet(void)
 		RECS[NRECS++].src = 1; /* 4: other bucket, same SKI, other source */
 	}
 	RECS[NRECS] = base;
-	for (int i = 0; i < SKI_SIZE; i++)
-		RECS[NRECS].ski[i] = 0x77 - i;
-	NRECS++; /* last: other SKI */
+	RECS[NRECS].ski[SKI_SIZE - 1] ^= 0xff;
+	NRECS++; /* last: other SKI - differing from the first one in its LAST octet only (a comparison over fewer octets merges them) */
 	for (int i = 0; i < NFILL_MAX; i++) {
 		memset(&FILL[i], 0, sizeof(FILL[i]));
 		FILL[i].asn = 100000 + i;
